@@ -16,6 +16,25 @@ import outcomes  # noqa: E402
 import streams  # noqa: E402
 
 
+_SWEEP = None
+
+
+def _sweep_entry(i):
+    import replay
+    pt = replay.pt
+    what, mk = _SWEEP[i]
+    rows = []
+    for v in range(2, 11):
+        for mode, m in (("app", pt.Mode.Application), ("sig", pt.Mode.Signature)):
+            try:
+                rows.append((v, mode, "teal", pt.compileTeal(mk(), m, version=v), ""))
+            except replay.PYTEAL_ERRORS as e:
+                rows.append((v, mode, "pyteal", "%s: %s" % (type(e).__name__, str(e)[:200]), ""))
+            except Exception as e:  # noqa: BLE001
+                rows.append((v, mode, "other", "%s: %s" % (type(e).__name__, str(e)[:200]), replay._raise_site(e)))
+    return rows
+
+
 def constructor_sweep(chk):
     """every constructor of the C04 catalogue x versions 2..10 x both modes: never a foreign exception; and when a program
     compiles in one mode only, the text it compiled to is judged by TealLegal.tla in the OTHER mode - if every instruction
@@ -24,22 +43,19 @@ def constructor_sweep(chk):
     import replay
     import static
     pt = replay.pt
+    global _SWEEP
+    _SWEEP = c04.sweep()
+    import multiprocessing as mp
+    with mp.get_context("fork").Pool(14) as pool:          # the catalogue entries are closures: the children inherit them
+        parts = pool.map(_sweep_entry, range(len(_SWEEP)), chunksize=4)
     res = {}
     attempts = 0
-    for what, mk in c04.sweep():
-        for v in range(2, 11):
-            for mode, m in (("app", pt.Mode.Application), ("sig", pt.Mode.Signature)):
-                attempts += 1
-                try:
-                    res[(what, v, mode)] = ("teal", pt.compileTeal(mk(), m, version=v))
-                except replay.PYTEAL_ERRORS as e:
-                    res[(what, v, mode)] = ("pyteal", "%s: %s" % (type(e).__name__, str(e)[:200]))
-                except Exception as e:  # noqa: BLE001
-                    res[(what, v, mode)] = ("other", type(e).__name__)
-                    if replay._raise_site(e) == "?":
-                        continue           # raised by the catalogue entry itself (an accessor this PyTeal does not have), not by PyTeal
-                    chk.report("C20/crash:%s@%s/%s" % (type(e).__name__, replay._raise_site(e), what),
-                               "%s at version %d, %s mode: %s: %s" % (what, v, mode, type(e).__name__, str(e)[:200]), {"what": what, "v": v, "mode": mode})
+    for (what, _), rows in zip(_SWEEP, parts):
+        for v, mode, cls, info, site in rows:
+            attempts += 1
+            res[(what, v, mode)] = (cls, info)
+            if cls == "other" and site != "?":       # site "?": raised by the catalogue entry itself (an accessor this PyTeal does not have), not by PyTeal
+                chk.report("C20/crash:%s@%s/%s" % (info.split(":")[0], site, what), "%s at version %d, %s mode: %s" % (what, v, mode, info), {"what": what, "v": v, "mode": mode})
     entries, owners = [], []
     for (what, v, mode), (cls, teal) in sorted(res.items()):
         other = "sig" if mode == "app" else "app"
